@@ -194,8 +194,40 @@ pub fn run(scn: &Value) -> Value {
                 Err(p) => json!({"out": "panic", "msg": p}),
             });
         }
+        // the same tree recorded from INSIDE the directory: the argument "." (spelt in several ways) without strip
+        // prefix denotes what the argument "t" with the strip prefix "t/" denotes
+        let mut dot_differs: Option<Value> = None;
+        if scn["args"] == json!(["t"]) && scn["strips"] == json!(["t/"]) {
+            let inside = root.join(map_path("t", class));
+            if std::env::set_current_dir(&inside).is_ok() {
+                let has_d = scn["fs"]["d"] == true;
+                let d_name = map_path("t/d", class);
+                let d_last = d_name.rsplit('/').next().unwrap_or("d").to_string();
+                let mut spellings = vec![".".to_string(), "./".to_string(), "./.".to_string()];
+                if has_d {
+                    spellings.push(format!("{d_last}/.."));
+                }
+                let sp = &spellings[i % spellings.len()];
+                let r = guarded(|| in_toto::runlib::record_artifacts(&[sp.as_str()], Some(algs), None));
+                let got = match r {
+                    Ok(Ok(map)) => {
+                        let (entries, dig_ok) = entries_of(&map, algs, class, big);
+                        json!({"out": "ok", "entries": entries, "digests_ok": dig_ok})
+                    }
+                    Ok(Err(e)) => json!({"out": "err", "msg": e.to_string()}),
+                    Err(p) => json!({"out": "panic", "msg": p}),
+                };
+                if got["out"] != results[0]["out"] || got["entries"] != results[0]["entries"] {
+                    dot_differs = Some(json!({"argument": sp, "got": got}));
+                }
+                std::env::set_current_dir(&root).unwrap();
+            }
+        }
         // report the first result that differs from the first order (if any), else the first
-        let first = results[0].clone();
+        let mut first = results[0].clone();
+        if let Some(d) = dot_differs {
+            first["dot_root_differs"] = d;
+        }
         let differing = results.iter().find(|r| r["out"] != first["out"] || r["entries"] != first["entries"]).cloned();
         res = match differing {
             Some(d) => {
